@@ -24,12 +24,7 @@ import "math"
 //import "github.com/pbenner/autodiff/special"
 /* -------------------------------------------------------------------------- */
 func (a Int32) EQUALS(b Int32, epsilon float64) bool {
-  v1 := a.GetFloat64()
-  v2 := b.GetFloat64()
-  return math.Abs(v1 - v2) < epsilon ||
-        (math.IsNaN(v1) && math.IsNaN(v2)) ||
-        (math.IsInf(v1, 1) && math.IsInf(v2, 1)) ||
-        (math.IsInf(v1, -1) && math.IsInf(v2, -1))
+  return a.GetInt32() == b.GetInt32()
 }
 /* -------------------------------------------------------------------------- */
 func (a Int32) GREATER(b Int32) bool {
